@@ -36,6 +36,12 @@ MUTANTS = [
     ("factor-best", "Util.v", "nmin c0 (c0::cs) else nmax c0 (c0::cs)", "nmax c0 (c0::cs) else nmax c0 (c0::cs)", "C08", "factor-out takes the largest common factor when variables are present"),
     ("parser-alias", "ParserObj.v", "(with_heap st (heap st ++ [hget (heap st) r]), Some copy)", "(st, Some r)", "C12", "a cache hit hands out the cached list itself"),
     ("layout-centre", "Layout.v", "let o := qred ((rootsep + 1) / 2) in", "let o := qred ((rootsep + 2) / 2) in", "C18", "children offset by half of (separation + 2)"),
+    ("rules-dm-order", "Rules.v", "let ac := if a_var && is_const (Some c) then Bin KMul c a else Bin KMul a c in", "let ac := Bin KMul a c in", "C08",
+     "distribution does not put a constant factor first in the second product"),
+    ("rules-mi-neg", "Rules.v", "ROk (replace root p (Bin KMul l (Bin KDiv (Const (NInt (-1))) c)), p)", "ROk (replace root p (Bin KMul l (Bin KDiv (Const (NInt 1)) (Un UNeg c))), p)", "C01",
+     "a / -b restated with the negation kept in the denominator"),
+    ("rules-rs-parent", "Rules.v", "is_k KSub node && (match par with None => true | Some _ => is_k KEq par || is_k KAdd par end)", "is_k KSub node && true", "C06",
+     "restate-subtraction accepted below any parent"),
     ("lexer-functions", "Lexer.v", "let here := if is_function_name v then", "let here := if false then", "C11", "sgn lexed as three variables"),
 ]
 
